@@ -481,11 +481,13 @@ func C09(c *core.Ctx) {
 	variants := []pki.Variant{{}, {SIDSKI: true}, {LDSv1: true}, {Indefinite: true}, {NoSigningTime: true}, {ExtraCertsBefore: 1}, {ExtraCertsAfter: 2},
 		{CrossSignedFirst: true}, {CrossSignedSecond: true}, {RDNOrderPermuted: true}, {NameStringType: "utf8"}, {SigningTimeAtNotBefore: true}, {SigningTimeAtNotAfter: true},
 		{WithCardSecurity: true}, {SIDSKI: true, LDSv1: true, Indefinite: true, ExtraCertsAfter: 1, CrossSignedFirst: true, NameStringType: "utf8"},
-		{NoSigningTime: true, CrossSignedSecond: true, RDNOrderPermuted: true, WithCardSecurity: true}}
+		{NoSigningTime: true, CrossSignedSecond: true, RDNOrderPermuted: true, WithCardSecurity: true},
+		{SIDIssuerReordered: true}, {SIDIssuerReordered: true, RepeatedAttrType: true, ExtraCertsAfter: 2}, {RepeatedAttrType: true, RDNOrderPermuted: true, ExtraCertsBefore: 1},
+		{ExpiredSameKeyAnchorFirst: true}, {ExpiredSameKeyAnchorSecond: true}, {ExpiredSameKeyAnchorFirst: true, CrossSignedSecond: true, SIDIssuerReordered: true, RepeatedAttrType: true, ExtraCertsAfter: 1}}
 	var items []paItem
 	for si, ks := range specs {
 		for vi, v := range variants {
-			if !c.Thorough() && (si+vi)%3 != 0 && vi != 0 {
+			if !c.Thorough() && (si+vi)%3 != 0 && vi != 0 && vi < 16 {
 				continue
 			}
 			sc, err := pki.GenuineScenario(c.Seed+int64(si*100+vi), ks, v)
